@@ -350,7 +350,7 @@ def _shard_entry(args):
 # ---------------------------------------------------------------- driver
 
 
-SWEEP_ENV_KEYS = ("PYTHONOPTIMIZE", "PYTHONHASHSEED", "PANDAS_COPY_ON_WRITE", "VERIF_LOGGING", "VERIF_WEAK_HASH", "OMP_NUM_THREADS", "VERIF_INTERRUPT_FIRST")
+SWEEP_ENV_KEYS = ("PYTHONOPTIMIZE", "PYTHONHASHSEED", "PANDAS_COPY_ON_WRITE", "VERIF_LOGGING", "VERIF_WEAK_HASH", "OMP_NUM_THREADS", "VERIF_INTERRUPT_FIRST", "VERIF_FAST_CLOCK")
 
 
 def sweep_env(seed):
@@ -360,8 +360,9 @@ def sweep_env(seed):
     non-cryptographic hash functions keep three bits while the tree under test calls them (vf.tree._install_weak_hashes); and
     OMP_NUM_THREADS=4, the variable clusters set for every job (the BLAS behind numpy stays single-threaded through its own
     OPENBLAS_NUM_THREADS / MKL_NUM_THREADS, so numerics are unchanged: what changes is what code reading that variable does); and
-    one case in three is first evaluated with an injected KeyboardInterrupt and then again normally (_interrupted_first)"""
-    return {"PYTHONOPTIMIZE": "1", "PYTHONHASHSEED": str(1 + (seed * 7919) % 4000), "PANDAS_COPY_ON_WRITE": "1", "VERIF_LOGGING": "debug", "VERIF_WEAK_HASH": "1", "OMP_NUM_THREADS": "4", "VERIF_INTERRUPT_FIRST": "1"}
+    one case in three is first evaluated with an injected KeyboardInterrupt and then again normally (_interrupted_first); and the
+    clock read by the tree under test jumps 61 s at every reading (vf.tree._install_fast_clock)"""
+    return {"PYTHONOPTIMIZE": "1", "PYTHONHASHSEED": str(1 + (seed * 7919) % 4000), "PANDAS_COPY_ON_WRITE": "1", "VERIF_LOGGING": "debug", "VERIF_WEAK_HASH": "1", "OMP_NUM_THREADS": "4", "VERIF_INTERRUPT_FIRST": "1", "VERIF_FAST_CLOCK": "1"}
 
 
 def sweep_budget(budget):
@@ -533,7 +534,7 @@ def main_run(mod, tier, seed, replay=None):
         path = write_replay(mod.ID, case, sub, msg, detail, env=env)
         violations = 1
         rc = 1
-        lines.append("violation [%s] (under python -O, PYTHONHASHSEED=%s, PANDAS_COPY_ON_WRITE=1, DEBUG logging, weak hashes, OMP_NUM_THREADS=4, interrupted first evaluations): %s" % (sub, env["PYTHONHASHSEED"], msg))
+        lines.append("violation [%s] (under python -O, PYTHONHASHSEED=%s, PANDAS_COPY_ON_WRITE=1, DEBUG logging, weak hashes, OMP_NUM_THREADS=4, interrupted first evaluations, fast clock): %s" % (sub, env["PYTHONHASHSEED"], msg))
         lines.append("VIOLATION property=%s replay=%s" % (mod.ID, path))
     wall = time.time() - t0
     write_evidence(mod, tier, seed, total, wall, violations, exhaustive, n_replays, budget)
